@@ -75,6 +75,52 @@ def counter_boundary_case(rng):
             "weights": weights, "ignore_missing": bool(rng.random() < 0.5), "boundary_m": m, "boundary_kind": which}
 
 
+def unequal_cells_case(rng):
+    """Cells whose (weighted) sizes differ by five to nine orders of magnitude: weights of 2^20 in one
+    category against 1 or 2^-10 in another (all dyadic, so every sum is exact), or one row against a
+    hundred thousand.  A tolerance that scales with the largest cell must not swallow the smallest."""
+    big_n = rng.random() < 0.3
+    ndims = int(rng.integers(1, 3))
+    ext = [int(rng.integers(2, 5)) for _ in range(ndims)]
+    if big_n:
+        n = int(gen.pick(rng, [120000, 250000]))
+        dense = []
+        for d in range(ndims):
+            a = numpy.zeros(n, dtype=numpy.int64)
+            where = rng.choice(n, size=ext[d] - 1, replace=False)
+            a[where] = numpy.arange(1, ext[d])                # every other category: exactly one row
+            dense.append(a)
+        weights = {"kind": "none"}
+    else:
+        n = int(gen.pick(rng, [12, 40, 150]))
+        dense = [rng.integers(0, e, size=n).astype(numpy.int64) for e in ext]
+        mags = [2.0 ** int(gen.pick(rng, [-10, 0, 20])) for _ in range(ext[0])]
+        mags[0], mags[-1] = 2.0 ** 20, float(gen.pick(rng, [1.0, 2.0 ** -10]))
+        w = (rng.integers(1, 9, size=n) / 4.0) * numpy.array(mags)[dense[0]]
+        miss = rng.random(n) < float(gen.pick(rng, [0.0, 0.1]))
+        if rng.random() < 0.5:
+            w2 = w.copy()
+            w2[miss] = numpy.nan
+            weights = {"kind": "array", "values": w2}
+        else:
+            weights = {"kind": "tuple", "values": w, "validity": ~miss}
+    k = gen.pick(rng, [None, None, 2])
+    shape = (n,) if k is None else (n, k)
+    values = (rng.integers(-16, 16, size=shape) / 4.0).astype(float)
+    fmiss = rng.random(shape) < float(gen.pick(rng, [0.0, 0.05, 0.2]))
+    if rng.random() < 0.5:
+        v = values.copy()
+        v[fmiss] = numpy.nan
+        fact = {"values": v, "validity": None, "dyadic": True}
+    else:
+        fact = {"values": values, "validity": ~fmiss, "dyadic": True}
+    commons = [int(rng.integers(0, e)) for e in ext]
+    if big_n:
+        commons = [0 if rng.random() < 0.8 else c for c in commons]
+    return {"dense": dense, "commons": commons, "shape": tuple(ext), "extents": ext, "n": n, "fact": fact,
+            "weights": weights, "ignore_missing": bool(rng.random() < 0.5), "unequal_cells": True}
+
+
 def many_cells_case(rng):
     """A cube of more than 1024 cells (where per-cell loops may switch strategy), with rows in cell 0."""
     exts = gen.pick(rng, [(40, 30), (33, 33), (1100,), (257, 5), (11, 10, 10)])
